@@ -63,6 +63,7 @@ func c04Exec(worker int, j amgr.Job, fail func(sig, msg string)) (evals int, obs
 	}
 	// the image at this commit boundary (every prefix is its own job)
 	evals += w.ScanImage(pats, fail)
+	evals += w.ScanSealed(pats, fail)
 	if w.Watching {
 		// reopen, then: addresses known, nothing unlocks, nothing private
 		if err := w.Restart(); err != nil {
@@ -73,6 +74,7 @@ func c04Exec(worker int, j amgr.Job, fail func(sig, msg string)) (evals int, obs
 		evals += w.CheckAccess(j.Focus, nil, map[string]int{}, fail)
 		evals += w.CheckUnlockSemantics(fail)
 		evals += w.ScanImage(pats, fail)
+		evals += w.ScanSealed(pats, fail)
 	}
 	return evals, fmt.Sprintf("%s/watching=%v", outcome, w.Watching)
 }
@@ -118,7 +120,7 @@ func runC04(args []string) {
 			cov["evaluations"] = e + extra
 		}
 		cov["patterns_per_image"] = len(amgr.Patterns("A", amgr.Seed("A")))
-		cov["rule"] = "every operation sequence up to the depth over create/derive/new account/new scope/imports/passphrase changes/lock/unlock/convert-to-watching-only/restart; at the commit boundary after the last operation the raw database file (all pages incl. freed ones) is scanned for every secret that can exist for the seed (seed, master/coin-type/account xprv + raw keys, address private keys raw/hex/WIF, imported keys, secret scripts, passphrases) and, since no transaction is recorded, every sensitive public datum (xpubs, public keys, x-only keys, hash160s, script hashes, address strings); after conversion + reopen addresses must be known and nothing unlocks; non-trivial = sequences with at least one key-creating or importing operation. Wallet-level part: every sequence of up to 3 Wallet.InitAccounts(scope, watchOnly, n) calls; after a conversion that returned nil the reopened wallet must be watching-only (no unlock, no private key, addresses known)"
+		cov["rule"] = "every operation sequence up to the depth over create/derive/new account/new scope/imports/passphrase changes/lock/unlock/convert-to-watching-only/restart; at the commit boundary after the last operation the raw database file (all pages incl. freed ones) is scanned for every secret that can exist for the seed (seed, master/coin-type/account xprv + raw keys, address private keys raw/hex/WIF, imported keys, secret scripts, passphrases) and, since no transaction is recorded, every sensitive public datum (xpubs, public keys, x-only keys, hash160s, script hashes, address strings); after conversion + reopen addresses must be known and nothing unlocks; in addition an attacker closure over the live rows (every value and length-prefixed field tried as scrypt parameters for the public - after conversion also the private - passphrases and as a secretbox ciphertext under the all-zero key and every key so obtained, to fixpoint) must not yield a plaintext containing a private pattern; non-trivial = sequences with at least one key-creating or importing operation. Wallet-level part: every sequence of up to 3 Wallet.InitAccounts(scope, watchOnly, n) calls; after a conversion that returned nil the reopened wallet must be watching-only (no unlock, no private key, addresses known)"
 		if _, ok := cov["samples"]; !ok {
 			cov["samples"] = []string{"(none)"}
 		}
